@@ -1,6 +1,7 @@
 /- C31 — property theorems (see docs/C31.md).  Model: C31/Model.lean, specification: C31/Spec.lean. -/
 import TornadoModel.C31.Lemmas
 import TornadoModel.C31.LemmasRev
+import TornadoModel.C31.LemmasUrl
 namespace TornadoModel.C31
 open Spec
 
@@ -121,6 +122,106 @@ theorem reverse_routes_back (P : PatS) (args : List Bytes) (h : wf P = true) (ha
     simp only [hp, Option.map_some, Option.some.injEq] at hmatch
     simp [findR, matchM, normDollar_concat, hm, hp, delegate, ← hmatch]
 
+
+/-! ## reverse through `reverse_url` (named lookup, nested routers, Application) -/
+
+/-- whatever `ReversibleRuleRouter.reverse_url(name, *args)` returns (a url or an error) is `PathMatches.reverse(*args)` of a
+    path rule that carries that name somewhere in the tree (nested routers included) — for ANY patterns. -/
+theorem reverse_url_sound (ng : Str → Nat) (name : Nat) (args : List Bytes) (rs : Rules) (r : Rev)
+    (h : reverseUrl ng name args rs = r) (hr : r ≠ .none) :
+    ∃ p, Matcher.path p ∈ namedIn name rs ∧
+      r = (match reverse p (ng (normDollar p)) args with | .ok u => .url u | .error e => .err e) := by
+  unfold reverseUrl at h
+  cases hn : namedAt name rs with
+  | some m =>
+    rw [hn] at h
+    simp only at h
+    obtain ⟨p, rfl⟩ := reverseM_ne_none ng args m r h hr
+    exact ⟨p, namedAt_mem name rs _ hn, by rw [← h]; rfl⟩
+  | none =>
+    rw [hn] at h
+    obtain ⟨p, hp, hv⟩ := reverseNested_sound ng name args r hr rs h
+    exact ⟨p, hp, by rw [← hv]; rfl⟩
+
+/-- **reverse_url routes back** (fragment patterns): the rule registered under `name` (no later rule of that name at its
+    level) standing ANYWHERE in a router's rule list, `regex.groups` = number of groups, the regex engine agreeing with
+    `matchPat` on its pattern.  Then `reverse_url(name, *args)` succeeds, the rule's own matcher takes the url back with the
+    same arguments, and — unless an earlier rule of the list takes the url (shadowing) — `find_handler` dispatches the url
+    to that rule's handler with the same arguments. -/
+theorem reverse_url_routes_back (P : PatS) (args : List Bytes) (h : wf P = true) (hargs : argsOk P.segs args = true)
+    (env : Env) (hm : ∀ s, env.m (render P ++ [cDollar]) s = (matchPat P s).map (fun gs => gs.map some))
+    (ng : Str → Nat) (hng : ng (render P ++ [cDollar]) = P.segs.length)
+    (hd : Nat) (kw : Option Nat) (name : Nat) (pre rest : Rules) (hlast : namedAt name rest = none)
+    (host : Str) (x : Bool) :
+    ∃ u, reverseUrl ng name args (pre.append (.cons (.path (render P ++ [cDollar])) (.handler hd) kw (some name) rest))
+          = .url u ∧
+      matchM env { hostName := host, path := u, xRealIp := x } (.path (render P ++ [cDollar])) = some (args.map some) ∧
+      (findR env { hostName := host, path := u, xRealIp := x } pre = none →
+        findR env { hostName := host, path := u, xRealIp := x }
+          (pre.append (.cons (.path (render P ++ [cDollar])) (.handler hd) kw (some name) rest))
+          = some { h := hd, kw := kw, args := args.map some }) := by
+  obtain ⟨u, hr, hback⟩ := reverse_routes_back P args h hargs env hm hd kw (some name) rest host x
+  refine ⟨u, ?_, ?_, ?_⟩
+  · simp [reverseUrl, namedAt_append, namedAt, hlast, reverseM, normDollar_concat, hng, hr]
+  · simp only [findR] at hback
+    cases hmm : matchM env { hostName := host, path := u, xRealIp := x } (.path (render P ++ [cDollar])) with
+    | none =>
+      rw [hmm] at hback
+      -- the rule refuses: then the hit would have to come from `rest`, but `hback` was derived for every `rest`
+      have := reverse_routes_back P args h hargs env hm hd kw (some name) .nil host x
+      obtain ⟨u', hr', hb'⟩ := this
+      rw [hr] at hr'
+      cases hr'
+      simp [findR, hmm] at hb'
+    | some a =>
+      rw [hmm] at hback
+      simp only [delegate, Option.some.injEq, Hit.mk.injEq, true_and] at hback
+      rw [hback]
+  · intro hpre
+    rw [findR_append, hpre, Option.none_or]
+    exact hback
+
+/-- the same through `Application.reverse_url` / `Application.find_handler` for an application without host groups:
+    the named rule stands anywhere in the handler list given to `Application(...)`. -/
+theorem app_reverse_url_routes_back (P : PatS) (args : List Bytes) (h : wf P = true) (hargs : argsOk P.segs args = true)
+    (m : Str → Str → Option Groups)
+    (hm : ∀ s, m (render P ++ [cDollar]) s = (matchPat P s).map (fun gs => gs.map some))
+    (ng : Str → Nat) (hng : ng (render P ++ [cDollar]) = P.segs.length)
+    (hd : Nat) (kw : Option Nat) (name : Nat) (pre rest : Rules) (hlast : namedAt name rest = none)
+    (dh : Option Str) (dflt : Option Nat) (host : Str) (x : Bool) :
+    let a : App := { handlers := pre.append (.cons (.path (render P ++ [cDollar])) (.handler hd) kw (some name) rest),
+                     hostGroups := [], defaultHost := dh, defaultHandler := dflt }
+    ∃ u, reverseUrl ng name args a.rules = .url u ∧
+      (findR { m := m, defaultHost := dh } { hostName := host, path := u, xRealIp := x } pre = none →
+        a.find m { hostName := host, path := u, xRealIp := x } = .hit { h := hd, kw := kw, args := args.map some }) := by
+  intro a
+  obtain ⟨u, hu, _, hroute⟩ := reverse_url_routes_back P args h hargs { m := m, defaultHost := dh } hm ng hng hd kw name
+    pre rest hlast host x
+  have hw : a.wildcard = a.handlers := by
+    simp only [App.wildcard]
+    cases a.defaultHost.isSome <;> simp [a, hostRules, Rules.append_nil]
+  have hrules : a.rules = .cons .any (.router a.handlers) none none .nil := by
+    simp [App.rules, a, hostRules, Rules.append, hw, App.wildcard, Rules.append_nil]
+  refine ⟨u, ?_, ?_⟩
+  · rw [hrules]
+    simp only [reverseUrl, namedAt, reverseNested, reverseT]
+    unfold reverseUrl at hu
+    cases hn : namedAt name a.handlers with
+    | some mm =>
+      simp only [a] at hn
+      rw [hn] at hu
+      simp only [a, hn]
+      simp only at hu
+      rw [hu]
+      simp
+    | none =>
+      simp only [a] at hn
+      simp [namedAt_append, namedAt, hlast] at hn
+  · intro hpre
+    have := hroute hpre
+    simp only [App.find, hrules, findR, matchM, delegate, a]
+    rw [this]
+
 /-! ## non-vacuity -/
 
 /-- `/a%b/([^/]+)/x/([0-9]+)` with arguments `"p q"`, `"42"` -/
@@ -141,5 +242,21 @@ def exRules : Rules :=
 def exEnv : Env := { m := fun p s => if p = [47, 97, 36] ∧ s = [47, 97] then some [] else none, defaultHost := none }
 example : findR exEnv { hostName := [121], path := [47, 97], xRealIp := false } exRules
     = some { h := 2, kw := some 5, args := [] } := by decide
+
+/-- hypotheses of `reverse_url_routes_back` are satisfiable: a host rule and an unrelated path rule in front of the named rule,
+    the engine = `matchPat` on the rule's pattern; `reverse_url` through the named lookup gives the expected url -/
+def exEnv2 : Env :=
+  { m := fun p s => if p = render exP ++ [cDollar] then (matchPat exP s).map (fun gs => gs.map some) else none,
+    defaultHost := none }
+def exPre : Rules := .cons (.host [120]) (.handler 1) none (some 3) (.cons (.path [47, 98]) (.handler 4) none none .nil)
+example : ∀ s, exEnv2.m (render exP ++ [cDollar]) s = (matchPat exP s).map (fun gs => gs.map some) := by
+  intro s; simp [exEnv2]
+example : namedAt 3 Rules.nil = none := rfl
+example : reverseUrl (fun _ => 2) 3 exArgs
+    (exPre.append (.cons (.path (render exP ++ [cDollar])) (.handler 2) (some 5) (some 3) .nil))
+    = .url [47, 97, 37, 98, 47, 112, 37, 50, 48, 113, 47, 120, 47, 52, 50] := by decide
+def exUrl : Str := [47, 97, 37, 98, 47, 112, 37, 50, 48, 113, 47, 120, 47, 52, 50]
+def exReq : Req := { hostName := [121], path := exUrl, xRealIp := false }
+example : findR exEnv2 exReq exPre = none := by decide
 
 end TornadoModel.C31
